@@ -412,11 +412,11 @@ func c11kinds(c *core.Ctx) {
 
 const c11devBase = `module d { namespace "urn:d"; prefix d; revision 2020-01-01;
  container top {
-   leaf a { type string; units "kg"; default "x"; must "../b"; }
+   leaf a { type string; units "kg"; default "x"; must "../b"; must "../c"; must "../ll"; }
    leaf b { type int32; config true; mandatory false; }
    leaf c { type string; }
    leaf-list ll { type string; min-elements 1; max-elements 5; }
-   list li { key k; unique "u1"; leaf k { type string; } leaf u1 { type string; } leaf u2 { type string; } }
+   list li { key k; unique "u1"; unique "u3"; leaf k { type string; } leaf u1 { type string; } leaf u2 { type string; } leaf u3 { type string; } }
    container sub { leaf z { type string; } }
  }
  rpc op { input { leaf i { type string; } } }
@@ -448,7 +448,7 @@ func c11deviations(c *core.Ctx) {
 		{`deviation /top/c { deviate add { must "../a"; } }`, "/top/c", false, map[string]string{"must": "../a"}},
 		{`deviation /top/c { deviate add { config false; } }`, "/top/c", false, map[string]string{"config": "false"}},
 		{`deviation /top/c { deviate add { mandatory true; } }`, "/top/c", false, map[string]string{"mandatory": "true"}},
-		{`deviation /top/li { deviate add { unique "u2"; } }`, "/top/li", false, map[string]string{"unique": "u1|u2"}},
+		{`deviation /top/li { deviate add { unique "u2"; } }`, "/top/li", false, map[string]string{"unique": "u1|u3|u2"}},
 		{`deviation /top/li { deviate add { max-elements 7; } }`, "/top/li", false, map[string]string{"max-elements": "7"}},
 		{`deviation /top/li { deviate add { min-elements 2; } }`, "/top/li", false, map[string]string{"min-elements": "2"}},
 		{`deviation /top/a { deviate replace { units "g"; } }`, "/top/a", false, map[string]string{"units": "g"}},
@@ -460,8 +460,13 @@ func c11deviations(c *core.Ctx) {
 		{`deviation /top/ll { deviate replace { min-elements 2; } }`, "/top/ll", false, map[string]string{"min-elements": "2"}},
 		{`deviation /top/a { deviate delete { units "kg"; } }`, "/top/a", false, map[string]string{"units": ""}},
 		{`deviation /top/a { deviate delete { default "x"; } }`, "/top/a", false, map[string]string{"default": ""}},
-		{`deviation /top/a { deviate delete { must "../b"; } }`, "/top/a", false, map[string]string{"must": ""}},
-		{`deviation /top/li { deviate delete { unique "u1"; } }`, "/top/li", false, map[string]string{"unique": ""}},
+		{`deviation /top/a { deviate delete { must "../b"; } }`, "/top/a", false, map[string]string{"must": "../c ;; ../ll"}},
+		{`deviation /top/a { deviate delete { must "../c"; } }`, "/top/a", false, map[string]string{"must": "../b ;; ../ll"}},
+		{`deviation /top/a { deviate delete { must "../ll"; } }`, "/top/a", false, map[string]string{"must": "../b ;; ../c"}},
+		{`deviation /top/a { deviate delete { must "../b"; must "../ll"; } }`, "/top/a", false, map[string]string{"must": "../c"}},
+		{`deviation /top/a { deviate add { must "../sub"; } }`, "/top/a", false, map[string]string{"must": "../b ;; ../c ;; ../ll ;; ../sub"}},
+		{`deviation /top/li { deviate delete { unique "u1"; } }`, "/top/li", false, map[string]string{"unique": "u3"}},
+		{`deviation /top/li { deviate delete { unique "u3"; } }`, "/top/li", false, map[string]string{"unique": "u1"}},
 	}
 	baseDump := DumpModule(base, true)
 	for _, dv := range devs {
